@@ -35,6 +35,10 @@ type vfC32RT struct {
 	attempts map[int]int
 	requests int
 	nFaults  int
+	// origBad[lo] is set when the ORIGINAL (first) attempt for the chunk at
+	// offset lo was answered with anything but the correct bytes
+	origBad map[int]bool
+	hedgeFaults int
 }
 
 type vfBody struct {
@@ -77,6 +81,17 @@ func (rt *vfC32RT) RoundTrip(req *http.Request) (*http.Response, error) {
 		rt.faults[f] = true
 		rt.nFaults++
 	}
+	if f != "ok" && f != "slow" {
+		if rt.attempts[idx] == 1 {
+			rt.origBad[idx] = true
+		} else {
+			rt.hedgeFaults++
+		}
+	}
+	// like a real transport, give up when the request's context was cancelled
+	if err := req.Context().Err(); err != nil {
+		return nil, err
+	}
 	var resp *http.Response
 	var err error
 	switch f {
@@ -104,6 +119,9 @@ func (rt *vfC32RT) RoundTrip(req *http.Request) (*http.Response, error) {
 		resp = mk(206, rt.resource[lo:hi+1], nil)
 	}
 	vsched.Point("rt-reply")
+	if cerr := req.Context().Err(); cerr != nil {
+		return nil, cerr
+	}
 	return resp, err
 }
 
@@ -119,15 +137,15 @@ func TestVerif_C32(t *testing.T) {
 		{3, 2, 2, 0, 0}, {3, 1, 2, 0, 0}, {4, 2, 1, 0, 0}, {3, 1, 8, 2, 1}, {4, 2, 8, 2, 4}, {3, 1, 1, 2, 4},
 	}
 	if venum.Thorough() {
-		shapes = append(shapes, shape{5, 2, 2, 0, 0}, shape{5, 1, 8, 2, 4}, shape{4, 1, 2, 2, 1}, shape{5, 2, 8, 2, 1})
+		shapes = append(shapes, shape{5, 2, 2, 0, 0}, shape{4, 1, 2, 2, 1}, shape{5, 2, 8, 2, 1})
 	}
-	devBound := venum.QT(1, 2)
-	preBound := venum.QT(1, 2)
+	devBound := venum.QT(2, 2)
+	preBound := venum.QT(1, 1)
 	venum.Explore(t, venum.Cfg{Name: "range-fetch-schedules-x-faults", DevBound: devBound, PreemptBound: preBound, Shardable: true, CheckDeterminism: true},
 		func(x *venum.X) {
 			sh := shapes[x.Choose(len(shapes), "shape")]
 			resource := []byte("abcdefgh")[:sh.size]
-			rt := &vfC32RT{resource: resource, faults: map[string]bool{}, attempts: map[int]int{}}
+			rt := &vfC32RT{resource: resource, faults: map[string]bool{}, attempts: map[int]int{}, origBad: map[int]bool{}}
 			client := &http.Client{Transport: rt}
 			cfg := &FetchConfig{ParallelThresholdBytes: 1, ChunkSizeBytes: int64(sh.chunk), MaxParallelRequests: sh.par,
 				TimeoutSeconds: 60, MaxFetchBytes: 1 << 20, SpeculativeRetryMultiplier: sh.hedgeMult, MaxSpeculativeHedges: sh.maxHedges}
@@ -178,6 +196,11 @@ func TestVerif_C32(t *testing.T) {
 			default:
 				x.Failf("C32:wrong-bytes:faults="+faults+":"+hedge, "fetch returned %q (no error) for resource %q; size=%d chunk=%d", data, resource, sh.size, sh.chunk)
 				x.Outcome("wrong-bytes")
+			}
+			if len(rt.origBad) == 0 && ferr != nil {
+				// every chunk's original attempt was answered correctly (possibly
+				// slowly): whatever happened to hedged duplicates must not matter
+				x.Failf("C32:hedge-changed-result:faults="+faults, "every original chunk request was answered correctly but the fetch failed (%d hedge faults): %v", rt.hedgeFaults, ferr)
 			}
 			if rt.nFaults == 0 && ferr != nil {
 				x.Failf("C32:error-without-fault", "fetch failed though every answer was correct: %v", ferr)
